@@ -108,6 +108,21 @@ fn main() {
     }
     match cmd {
         "genkeys" => genkeys(args[2].parse().unwrap(), &args[3]),
+        "fuzzseeds" => {
+            // seed corpus of the coverage-guided target signed_xml (see /verif/fuzz)
+            hooks::install(Some(&keyfile));
+            let dir = PathBuf::from(&args[2]);
+            std::fs::create_dir_all(&dir).unwrap();
+            let seeds = sigw::fuzz_seeds().unwrap_or_else(|e| {
+                eprintln!("cannot build seeds: {e:?}");
+                std::process::exit(2);
+            });
+            for (i, s) in seeds.iter().enumerate() {
+                std::fs::write(dir.join(format!("seed-{i:02}")), s).unwrap();
+            }
+            eprintln!("wrote {} seeds to {}", seeds.len(), dir.display());
+            let _ = std::fs::remove_dir_all(world::scratch_root());
+        }
         "worker" => {
             hooks::install(Some(&keyfile));
             let prop = arg(&args, "--prop").unwrap();
